@@ -327,6 +327,31 @@ def p7b_build(size, perm):
         "src/a.xq": "foo(a)\n", "src/b.jsq": "foo(b)\n",
     }
 
+def p8_build(size, perm):
+    """rule files of SEVERAL languages, file names permuted (so the load order interleaves the
+    languages in some permutations), plus one multi-document rule file whose document order is
+    permuted: two TypeScript rules, two Python rules, one JavaScript rule, none with globs"""
+    (pfile, pdoc) = perm
+    mk = lambda rid, lang, pat: {"id": rid, "language": lang, "severity": "warning", "rule": {"pattern": pat},
+                                 "message": rid + " on $A", "fix": "ok($A)"}
+    singles = [json.dumps(mk("p8-ts1", "typescript", "foo($A)")) + "\n",
+               json.dumps(mk("p8-py1", "python", "foo($A)")) + "\n",
+               json.dumps(mk("p8-ts2", "typescript", "bar($A)")) + "\n"]
+    names = ["a.yml", "m.yml", "z.yml"]
+    multi = [mk("p8-py2", "python", "bar($A)"), mk("p8-js1", "javascript", "foo($A)"), mk("p8-ts3", "typescript", "baz($A)")]
+    files = {"sgconfig.yml": json.dumps({"ruleDirs": ["rules"]})}
+    named = {}
+    for content, i in zip(singles, pfile):
+        named["rules/" + names[i]] = content
+    named["rules/n-multi.yml"] = docs(*[multi[i] for i in pdoc])
+    for k in sorted(named):
+        files[k] = named[k]
+    files["src/a.ts"] = "foo(1)\nbar(2)\nbaz(3)\n"
+    files["src/b.py"] = "foo(1)\nbar(2)\n"
+    files["src/c.js"] = "foo(1)\nbar(2)\n"
+    return files
+
+
 def p4d_build(size, perm):
     (pc,) = perm
     # $F (the callee) and $CALL (the call) START AT THE SAME BYTE; their constraints depend on each
@@ -367,6 +392,8 @@ def projects():
                 lambda s: [("rewriters definitions", s), ("transform rewriters list", s)], p5_build, tests=True, fixes=True),
         Project("P6", "rule files (names permuted), overlapping fixes, global utilDirs rules depending on each other",
                 lambda s: [("rule file names", 3), ("util file names", s)], p6_build, tests=True, fixes=True),
+        Project("P8", "rule files of several languages: file names and documents of a multi-document file permuted",
+                lambda s: [("rule file names", 3), ("documents of one rule file", 3)], p8_build, tests=False, fixes=True),
         Project("P7a", "languageGlobs with 3 disjoint entries",
                 lambda s: [("languageGlobs keys", 3)], p7a_build, tests=False, fixes=True),
         Project("P7b", "languageGlobs where one file is claimed by two entries (judged per text order)",
@@ -376,8 +403,8 @@ def projects():
 
 # size parameter of every project per tier (number of keys of the permuted map)
 SIZES = {
-    "quick":    {"P1": 3, "P2": 3, "P3": 3, "P4a": 3, "P4b": 2, "P4c": 2, "P4d": 2, "P5": 2, "P6": 2, "P7a": 3, "P7b": 2},
-    "thorough": {"P1": 4, "P2": 4, "P3": 4, "P4a": 3, "P4b": 2, "P4c": 2, "P4d": 2, "P5": 3, "P6": 3, "P7a": 3, "P7b": 2},
+    "quick":    {"P1": 3, "P2": 3, "P3": 3, "P4a": 3, "P4b": 2, "P4c": 2, "P4d": 2, "P8": 3, "P5": 2, "P6": 2, "P7a": 3, "P7b": 2},
+    "thorough": {"P1": 4, "P2": 4, "P3": 4, "P4a": 3, "P4b": 2, "P4c": 2, "P4d": 2, "P8": 3, "P5": 3, "P6": 3, "P7a": 3, "P7b": 2},
 }
 SEEDS = {"quick": 8, "thorough": 48}      # seeds 0..S inclusive
 REPS = 2
